@@ -32,11 +32,16 @@ QUICK_BUNDLED = ["HED8.3.0.xml", "HED_score_2.0.0.xml", "HED_testlib_2.0.0.xml"]
 
 # known findings (descriptions inside the allowed class for which a writer/reader pair is not inverse)
 F1, F2, F3 = "C05-F1", "C05-F2", "C05-F3"
-WIKI_RESERVED = ("extend here", "<nowiki>", "</nowiki>")
+# VERIF_C05_FIXED=1 (default): the code under test carries the repairs fix-F1..F4.  F1, F2, F4 and the
+# 'extend here' half of F3 are then ordinary violations; what stays a registered finding is the rest of F3
+# (<nowiki> / </nowiki> inside a description are deleted by the MediaWiki reader).  VERIF_C05_FIXED=0 is the
+# oracle for the unrepaired code with all four finding classes.
+FIXED = int(os.environ.get("VERIF_C05_FIXED", "1"))
+WIKI_RESERVED = ("<nowiki>", "</nowiki>") if FIXED else ("extend here", "<nowiki>", "</nowiki>")
 
 # Defect classes found by this oracle that are not (yet) registered findings.  Failures of such a class carry
 # fid None plus a key "candidate"; adding the id to PROMOTED turns the candidate id into the fid.
-PROMOTED = {"C05-F4"}   # registered in known_findings.json
+PROMOTED = set() if FIXED else {"C05-F4"}   # ids registered in known_findings.json
 
 SECTIONS = ("tags", "unit_classes", "units", "unit_modifiers", "value_classes", "attributes", "properties")
 
@@ -165,19 +170,26 @@ def apply_op(root, op):
         raise ValueError(kind)
 
 
-def _item(kind, key, el):
-    return (kind, key, _desc(el), tuple(sorted((a, tuple(v)) for a, v in _attrs(el))))
+def _item(kind, key, el, norm=False):
+    d = _desc(el)
+    if norm and d is not None:
+        d = d.strip() or None
+    return (kind, key, d, tuple(sorted((a, tuple(v)) for a, v in _attrs(el))))
 
 
-def listing(root):
+def listing(root, norm_desc=False):
     """Canonical listing of a schema XML tree, computed without hed: header, prologue, epilogue and a multiset of
-    (section kind, key, description or None, sorted ((attribute, (values...)), ...))."""
+    (section kind, key, description or None, sorted ((attribute, (values...)), ...)).
+    norm_desc (only for the EXPECTATION derived from an edit, never for the saved file): outer white space is not
+    part of a description, a description of white space only is absent (the rule all three readers follow since
+    the repair of C05-F1)."""
     items = collections.Counter()
+    _item_ = lambda k, key, el: _item(k, key, el, norm_desc)  # noqa
 
     def walk(el, path):
         for n in el.findall("node"):
             p = path + (_name(n),)
-            items[_item("tag", p, n)] += 1
+            items[_item_("tag", p, n)] += 1
             walk(n, p)
     sch = root.find("schema")
     if sch is not None:
@@ -189,10 +201,10 @@ def listing(root):
         if s is None:
             continue
         for d in s.findall(deft):
-            items[_item(LISTING_KIND[sec], (_name(d),), d)] += 1
+            items[_item_(LISTING_KIND[sec], (_name(d),), d)] += 1
             if sec == "unitClassDefinitions":
                 for u in d.findall("unit"):
-                    items[_item("unit", (_name(d), _name(u)), u)] += 1
+                    items[_item_("unit", (_name(d), _name(u)), u)] += 1
     pro, epi = root.find("prologue"), root.find("epilogue")
     return {"header": dict(root.attrib),
             "prologue": ((pro.text or "") if pro is not None else "").strip(),
@@ -1067,7 +1079,7 @@ def classify(fmt, diffs, exc, case):
     descs = _edit_descs(case)
     fam = _family(fmt)
     if exc is not None:
-        if fam == "tsv" and any(d.startswith('"') for d in descs):
+        if not FIXED and fam == "tsv" and any(d.startswith('"') for d in descs):
             return F2
         if fam == "mediawiki" and any(w in d for d in descs for w in WIKI_RESERVED):
             return F3
@@ -1076,11 +1088,11 @@ def classify(fmt, diffs, exc, case):
         return None
     changed = [d for d in diffs if d["kind"] != "extra"]
     extra = [d for d in diffs if d["kind"] == "extra"]
-    if fam in ("mediawiki", "tsv") and not extra and all(
+    if not FIXED and fam in ("mediawiki", "tsv") and not extra and all(
             d["kind"] == "changed" and d["attrs_equal"] and d["od"] and d["od"] != d["od"].strip()
             and (d["rd"] or "") == d["od"].strip() for d in changed):
         return F1
-    if fam == "tsv" and not extra and changed and all((d["od"] or "").startswith('"') for d in changed):
+    if not FIXED and fam == "tsv" and not extra and changed and all((d["od"] or "").startswith('"') for d in changed):
         return F2
     if fam == "mediawiki" and all(d["name"] == "" for d in extra):
         hit = [d for d in changed if any(w in (d["od"] or "") for w in WIKI_RESERVED)]
@@ -1275,7 +1287,7 @@ def _run_case(case, res, d):
         fmts += ["xml-file", "mediawiki-file"]
     # NB the in-memory from_dataframes(get_as_dataframes()) path is not an observation point of the property (under
     # pandas 3 it raises on None descriptions even for bundled schemas): TSV goes through files only.
-    lst = listing(root)
+    lst = listing(root, norm_desc=bool(FIXED))
     std_lst = std_listing_for(c.with_std) if partnered else None
     loaded = []           # (fmt, merged, reloaded schema, keys of differing entries, fid, equals original)
     mal_out = collections.Counter()
@@ -1398,7 +1410,7 @@ def _candidate(fmt, m, diffs, case, c, orig=None, r=None):
     original has no duplicate names, and the reloaded schema's only duplicate names are unit classes that in the
     original belong to the standard schema (no inLibrary) and own at least one library unit.
     """
-    if _family(fmt) != "tsv" or m is not False or diffs or orig is None or r is None:
+    if FIXED or _family(fmt) != "tsv" or m is not False or diffs or orig is None or r is None:
         return None
     try:
         if orig.has_duplicates():
